@@ -10,10 +10,12 @@ An individual is a solution tag plus its cached objective value (`none` = not ev
 `get_current_mut()` are a small language of `Vec` operations (`Edit`), including the ones that
 panic inside the edit.
 
-Two places are nondeterministic over a *legal witness* read off the real run:
+Three places are nondeterministic over a *legal witness* read off the real run:
 * `SplitPopulationByObjectiveValue` sorts with `sort_unstable_by_key`; among individuals with
   equal objective value any order is legal (`splitLegal`).  Without (or with an illegal) witness the
   model answers with the stable sort.
+* `PopulationEvaluator` is modelled exactly (`cEval`); of every other shipped pop-process-push component only the
+  FRAME is modelled (`cFrame need takes puts`): what it puts back, or the height after its failure, is a witness.
 * After a panic inside `InterleavePopulations` / `SplitPopulationByObjectiveValue` the code has
   already popped; nothing promises that, so "stack untouched" is accepted too (witness = height
   after the panic).  Without a witness the model follows the code.
@@ -66,18 +68,32 @@ def applyEdit : Edit → Pop → Option Pop
   | .clear, _ => some []
   | .retainEval, c => some (c.filter (fun i => i.obj.isSome))
 
+/-- What the real run of a pop-process-push component did (read off its output): it put `new` back (top first),
+or it failed — by panic (`true`) or by `Err` — leaving `h` populations on the stack. -/
+inductive FrameWit where
+  | ok (new : List Pop)
+  | fail (panic : Bool) (h : Nat)
+  deriving Repr, DecidableEq
+
 inductive Op where
   | push (p : Pop) | pop | tryPop | cur | getCur | edit (e : Edit) | tryEdit (e : Edit)
   | peek (d : Nat) | tryPeek (d : Nat) | rot (n : Nat) | len | empty | reset
   | cRot (n : Nat) | cClear | cDup
   | cIleave (w : Option Nat)                          -- witness: height after a panic
   | cSplit (w : Option Nat) (ws : Option (Pop × Pop)) -- witnesses: height after a panic; the two halves
+  | cEval                                             -- `PopulationEvaluator` (any identifier)
+  /-- A shipped component with a documented stack effect: it needs `need` populations, takes the top `takes` off
+  and puts `puts` populations back (selection 1/0/1, mutation / recombination / archive re-insertion 1/1/1,
+  replacement 2/2/1, archive update 1/0/0).  WHAT it puts back is the component's business (witness). -/
+  | cFrame (need takes puts : Nat) (w : Option FrameWit)
   deriving Repr, DecidableEq
 
 inductive Out where
   | pop (p : Pop) | none | panic | ok | err | nat (n : Nat) | bool (b : Bool)
   | panicH (h : Nat)          -- a component panicked; stack height afterwards
   | split (l u : Pop)         -- `SplitPopulationByObjectiveValue` succeeded: new top, new second
+  | errH (h : Nat)            -- a component returned `Err`; stack height afterwards
+  | put (new : List Pop)      -- a pop-process-push component succeeded: the populations it put back, top first
   deriving Repr, DecidableEq
 
 /-- `Vec::pop`. -/
@@ -143,6 +159,15 @@ def splitPop (p : Pop) (ws : Option (Pop × Pop)) : Option (Pop × Pop) :=
     | some (l, u) => if splitLegal p l u then some (l, u) else some (splitCanon p)
     | none => some (splitCanon p)
   else none
+
+/-- `Sequential::evaluate` on `TagProblem`: `evaluate_with(objective)` on every individual, evaluated or not. -/
+def evalInd (i : Ind) : Ind := ⟨i.tag, some i.tag⟩
+
+def frameFits (len need takes : Nat) : Bool := decide (need ≤ len) && decide (takes ≤ len)
+
+/-- Without (or with an unusable) witness: the component puts back empty populations. -/
+def frameCanon (s : Stk) (takes puts : Nat) : Stk × Out :=
+  (s.take (s.length - takes) ++ List.replicate puts [], .put (List.replicate puts []))
 
 def step (s : Stk) : Op → Stk × Out
   | .push p => (s ++ [p], .ok)
@@ -222,6 +247,25 @@ def step (s : Stk) : Op → Stk × Out
         if w = some s.length then (s, .panicH s.length) else (s1, .panicH s1.length)
       | some (lower, upper) => (s1 ++ [upper] ++ [lower], .split lower upper)
 
+  | .cEval =>                       -- `try_pop`; evaluate every individual; push — whatever the population's size
+    match vecPop s with
+    | some (p, s') => (s' ++ [p.map evalInd], .ok)
+    | none => (s, .ok)
+  | .cFrame need takes puts w =>
+    if frameFits s.length need takes then
+      match w with
+      | some (.ok new) =>
+        if new.length = puts then (s.take (s.length - takes) ++ new.reverse, .put new) else frameCanon s takes puts
+      | some (.fail pn h) =>        -- failed after popping some of the `takes` populations (nothing promises how many)
+        if s.length - takes ≤ h ∧ h ≤ s.length then (s.take h, if pn then .panicH h else .errH h)
+        else frameCanon s takes puts
+      | none => frameCanon s takes puts
+    else                            -- `pop()` / `current()` on too low a stack panic
+      match w with
+      | some (.fail true h) =>
+        if s.length - takes ≤ h ∧ h ≤ s.length then (s.take h, .panicH h) else (s, .panicH s.length)
+      | _ => (s, .panicH s.length)
+
 def run (s : Stk) : List Op → Stk × List Out
   | [] => (s, [])
   | op :: ops =>
@@ -238,6 +282,9 @@ def specRot (s : Spec) (n : Nat) : Spec :=
   match s.take n with
   | [] => s
   | t :: rest => rest ++ [t] ++ s.drop n
+
+def specFrameCanon (s : Spec) (takes puts : Nat) : Spec × Out :=
+  (List.replicate puts [] ++ s.drop takes, .put (List.replicate puts []))
 
 def specStep (s : Spec) : Op → Spec × Out
   | .push p => (p :: s, .ok)
@@ -274,6 +321,22 @@ def specStep (s : Spec) : Op → Spec × Out
       match splitPop p ws with
       | none => if w = some s.length then (s, .panicH s.length) else (r, .panicH r.length)
       | some (lower, upper) => (lower :: upper :: r, .split lower upper)
+
+  | .cEval => match s with | p :: r => (p.map evalInd :: r, .ok) | [] => (s, .ok)
+  | .cFrame need takes puts w =>
+    if frameFits s.length need takes then
+      match w with
+      | some (.ok new) =>
+        if new.length = puts then (new ++ s.drop takes, .put new) else specFrameCanon s takes puts
+      | some (.fail pn h) =>
+        if s.length - takes ≤ h ∧ h ≤ s.length then (s.drop (s.length - h), if pn then .panicH h else .errH h)
+        else specFrameCanon s takes puts
+      | none => specFrameCanon s takes puts
+    else
+      match w with
+      | some (.fail true h) =>
+        if s.length - takes ≤ h ∧ h ≤ s.length then (s.drop (s.length - h), .panicH h) else (s, .panicH s.length)
+      | _ => (s, .panicH s.length)
 
 def specRun (s : Spec) : List Op → Spec × List Out
   | [] => (s, [])
@@ -328,6 +391,16 @@ def Edit.parse? : Sexp → Option Edit
   | .list [.atom "e-retain"] => some .retainEval
   | p => (Pop.parse? p).map Edit.set
 
+/-- The documented stack effect (needs, takes, puts) of the shipped components driven as `(c-comp NAME ARG*)`. -/
+def frameEffect? (name : String) : Option (Nat × Nat × Nat) :=
+  if name.startsWith "sel-" then some (1, 0, 1)        -- selection: reads the current population, pushes the selection
+  else if name.startsWith "mut-" then some (1, 1, 1)   -- mutation driver: pop, mutate, push
+  else if name.startsWith "rec-" then some (1, 1, 1)   -- recombination driver: pop, recombine, push
+  else if name.startsWith "rep-" then some (2, 2, 1)   -- replacement driver: pop offspring, pop parents, push survivors
+  else if name = "arch-upd" then some (1, 0, 0)        -- ElitistArchiveUpdate: reads the current population
+  else if name = "arch-into" then some (1, 1, 1)       -- ElitistArchiveIntoPopulation: extends the current population
+  else none
+
 def Op.parseBase? : Sexp → Option Op
   | .list [.atom "push", p] => (Pop.parse? p).map Op.push
   | .list [.atom "pop"] => some .pop
@@ -347,6 +420,9 @@ def Op.parseBase? : Sexp → Option Op
   | .list [.atom "c-dup"] => some .cDup
   | .list [.atom "c-ileave"] => some (.cIleave none)
   | .list [.atom "c-split"] => some (.cSplit none none)
+  | .list [.atom "c-eval"] => some .cEval
+  | .list [.atom "c-eval-a"] => some .cEval
+  | .list (.atom "c-comp" :: .atom name :: _) => (frameEffect? name).map fun e => .cFrame e.1 e.2.1 e.2.2 none
   | _ => none
 
 /-- `(in k OP)`: `OP` executed inside `k` nested child scopes (`State::with_inner_state`). The population
@@ -364,6 +440,12 @@ def Op.withWitness (op : Op) (implOut : Sexp) : Op :=
     match Pop.parse? l, Pop.parse? u with
     | some l, some u => .cSplit none (some (l, u))
     | _, _ => op
+  | .cFrame a b c _, .list (.atom "ok" :: ps) =>
+    match ps.mapM Pop.parse? with
+    | some new => .cFrame a b c (some (.ok new))
+    | none => op
+  | .cFrame a b c _, .list [.atom "panic", h] => .cFrame a b c ((nat? h).map (FrameWit.fail true))
+  | .cFrame a b c _, .list [.atom "err", h] => .cFrame a b c ((nat? h).map (FrameWit.fail false))
   | _, _ => op
 
 def attach : List Op → List Sexp → List Op
@@ -381,6 +463,8 @@ def Out.toSexp : Out → Sexp
   | .bool b => ofBool b
   | .panicH h => .list [.atom "panic", ofNat h]
   | .split l u => .list [.atom "ok", Pop.toSexp l, Pop.toSexp u]
+  | .errH h => .list [.atom "err", ofNat h]
+  | .put new => .list (.atom "ok" :: new.map Pop.toSexp)
 
 /-- Input `(ops op*)`, implementation output `((outs out*) (stack P*))`; model / spec output in the same
 shape, the stack printed top first. The implementation's output is only used to read the witnesses. -/
